@@ -622,6 +622,10 @@ class OsrmStub:
                 durs, dists = durs[:k], dists[:k]
             elif fault == "more":
                 durs, dists = durs + [1], dists + [1]
+            elif fault == "emptyrows":           # both rows present but EMPTY (not even the point itself)
+                durs, dists = [], []
+            elif fault == "emptydist":
+                dists = []
             elif fault == "fewer_dist":          # the two rows of one reply have different lengths
                 dists = dists[:1 + len(ids) // 2]
             elif fault == "fewer_dur":
@@ -1103,7 +1107,7 @@ def _l2_lines(gen, ds, ops, workdir):
     return out
 
 
-FAULTS = ["refuse", "drop", "truncate", "status500", "empty", "nonjson", "nodurations", "nodistances", "nulls", "fewer", "fewer_dist", "fewer_dur"]
+FAULTS = ["refuse", "drop", "truncate", "status500", "empty", "nonjson", "nodurations", "nodistances", "nulls", "fewer", "fewer_dist", "fewer_dur", "emptyrows", "emptydist"]
 
 
 def selftest(san=False, seeds=(1, 2, 3), keep=False):
